@@ -185,6 +185,22 @@ func mkBin(op string, a, b *Term) *Term {
 			return boolT(eq)
 		}
 	}
+	// x == true -> x ; x == false -> !x ; x != true -> !x ; x != false -> x
+	if op == "==" || op == "!=" {
+		for i := 0; i < 2; i++ {
+			k, x := a, b
+			if i == 1 {
+				k, x = b, a
+			}
+			if k.IsConst() && (k.Aux == "true" || k.Aux == "false") && !x.IsConst() {
+				pos := (k.Aux == "true") == (op == "==")
+				if pos {
+					return x
+				}
+				return &Term{Op: "un", Aux: "!", Args: []*Term{x}}
+			}
+		}
+	}
 	switch op {
 	case "+", "*", "&", "|", "^":
 		// flatten + sort commutative/associative chains
